@@ -35,7 +35,8 @@ import (
 //
 //	h2up <method> <frame+frame…> => <r1> <r2> <same|new|none>
 //	frames: D / De DATA (3 bytes) without / with END_STREAM; R<code> RST_STREAM; H / He HEADERS :status 200 without / with
-//	        END_STREAM; W<inc> WINDOW_UPDATE on the stream; P PING; X DATA on the stream after it completed
+//	        END_STREAM; W<inc> WINDOW_UPDATE on the stream; P PING; X DATA on the stream after it completed; C the peer
+//	        closes the connection
 //	r:      resp | reset:<reason> | hang | nostream:<pool failure>
 
 const h2upWait = 1500 * time.Millisecond
@@ -139,6 +140,8 @@ func (uc *h2upConn) send(streamID uint32, tok string) {
 		hdr(true, xhpack.HeaderField{Name: ":status", Value: "200"}, xhpack.HeaderField{Name: "x-up", Value: "1"})
 	case tok == "Hbad":
 		hdr(true, xhpack.HeaderField{Name: ":status", Value: "200"}, xhpack.HeaderField{Name: "X-Bad", Value: "1"})
+	case tok == "C": // the upstream closes the connection with the request in flight
+		uc.c.Close()
 	case tok == "P":
 		uc.fr.WritePing(false, [8]byte{1, 2, 3})
 	case strings.HasPrefix(tok, "R"):
@@ -280,6 +283,7 @@ func h2upCases(c *hx.Ctx) {
 		{"GET", "H+R8"}, {"GET", "H+D+R2"}, {"POST", "H+R1"}, // partial response, then reset
 		{"GET", "P+D"}, {"GET", "W5+R8"}, {"GET", "P+R3"},
 		{"GET", "He+X"}, {"GET", "H+De+X"}, // DATA on a stream that has completed
+		{"GET", "C"}, {"GET", "H+C"}, {"HEAD", "P+C"}, // connection closed under the request: Reset holds the mutex over ResetStream
 	}
 	if len(c.Args) >= 3 && c.Args[2] == "probe" {
 		base = []sc{{"GET", "R0"}, {"GET", "Hbad"}, {"GET", "W0"}, {"GET", "H+W0"}, {"GET", "H+R0"}}
@@ -287,6 +291,11 @@ func h2upCases(c *hx.Ctx) {
 	hangs := 0
 	seenCase := map[string]bool{}
 	run := func(s sc) {
+		if s.method == "POST" && strings.HasSuffix(s.frames, "C") {
+			// a connection closed while the request body is still being written fails the request either through the
+			// write (ConnectionFailed) or through the close event (ConnectionTermination): keep the case deterministic
+			s.method = "GET"
+		}
 		if seenCase[s.method+" "+s.frames] {
 			return
 		}
@@ -309,7 +318,7 @@ func h2upCases(c *hx.Ctx) {
 		for j := c.Rng.Intn(2); j > 0; j-- {
 			fr = append(fr, c.Rng.PickS([]string{"P", "W3"}))
 		}
-		switch c.Rng.Intn(5) {
+		switch c.Rng.Intn(6) {
 		case 0:
 			fr = append(fr, c.Rng.PickS([]string{"D", "De"}))
 		case 1:
@@ -322,6 +331,9 @@ func h2upCases(c *hx.Ctx) {
 			} else {
 				fr = append(fr, "H", "D", fmt.Sprintf("R%d", c.Rng.Pick(codes)))
 			}
+		case 4:
+			fr = append(fr, c.Rng.PickS([]string{"C", "H+C"}))
+			fr = strings.Split(strings.Join(fr, "+"), "+")
 		default:
 			fr = append(fr, c.Rng.PickS([]string{"He", "H+De"}))
 			fr = strings.Split(strings.Join(fr, "+"), "+")
